@@ -431,7 +431,7 @@ func copyFile(src, dst string) error {
 	return out.Close()
 }
 
-func sortedKeys(m map[string]int) []string {
+func faultSortedKeys(m map[string]int) []string {
 	ks := make([]string, 0, len(m))
 	for k := range m {
 		ks = append(ks, k)
